@@ -273,8 +273,9 @@ PROPS['C04'] = dict(
           'the wire, and an independent validator of broker packets (a certainly valid PUBLISH must not be answered with '
           'InvalidPacket).',
     note='Environment assumption of the residue-free theorems: the broker Maximum Packet Size admits a 5-byte acknowledgement '
-         '(AckFits). Below that (a limit of 1..4 bytes) a first QoS 2 arrival is recorded, the connection is closed as C14 demands, '
-         'and the retransmission is treated as a duplicate (observation in DESIGN.md 7.3). Trusted: Coq kernel and VM (the '
+         '(AckFits). Below that (a limit of 1..4 bytes) the connection is closed as C14 demands and a first QoS 2 arrival leaves no '
+         'trace (C04_qos2_first_arrival: s\' = s), so its retransmission is delivered - this was false on the unchanged tree '
+         '(defect F18: the identifier stayed recorded and the message was lost), repaired by fix 6ec1ca9. Trusted: Coq kernel and VM (the '
          'non-vacuity example is computed), model, extraction, harness, Python reference receiver and validator. No axioms.')
 
 PROPS['C12'] = dict(
